@@ -268,6 +268,9 @@ def run(ctx: core.Ctx):
                         "inputs the property leaves open (foreign enumeration members, float/bool to plain integer functions, numeric strings, non-str remote codes) are informational"]
     from .. import b2check
     b2check.run_b2(ctx, wire_jobs, ["C05w"], label="end-to-end writes on a real connection", accept=False)
+    # two objects of the same class on two connections (class-level / module-level state shows here)
+    from .. import twin as _twin
+    _twin.run(ctx, core.tables(), ctx.rng, "write")
     return ctx.finish()
 
 
